@@ -1,5 +1,6 @@
 import Shm.Proto
 import Shm.Store.DiskView
+import Shm.CryptoMon
 open Shm
 
 /-- model-side context of a call, printed with every mismatch so that the per-property judges can tell what the
@@ -40,6 +41,7 @@ structure Drv where
   st : State := {}
   saved : List (String × State) := []
   disk : Shm.Store.DiskCfg := {}
+  mon : Shm.CryptoMon.Mon := []
   lineNo : Nat := 0
   pairs : Nat := 0
   mism : Nat := 0
@@ -83,6 +85,8 @@ partial def loop (h : IO.FS.Stream) (d : Drv) (pendingOp : Option (List String))
          | some u => loop h { d with disk := { umask := u } } none
          | none => loop h d none)
       | "fsmut" :: _, _ => loop h d none
+      | "decrelay" :: _, _ => loop h d none
+      | "verrelay" :: _, _ => loop h d none
       | ["kcv", _, _], [rv, _, _, kt, val, cv] =>
         -- C13: a non-empty CKA_CHECK_VALUE of a secret key whose value is readable must be the standard check value for its type
         (match parseNat? rv, parseHexNat? kt, (if val == "-" then none else parseHex val), (if cv == "-" || cv == "." then none else parseHex cv) with
@@ -109,6 +113,13 @@ partial def loop (h : IO.FS.Stream) (d : Drv) (pendingOp : Option (List String))
       | some p =>
         let (st', r) := stepAny d.st p.call
         let ctxStr := callCtx d.st p.call
+        -- C10: the reference implementations recompute every completed cryptographic operation
+        let (mon', fin) := Shm.CryptoMon.step d.st d.mon op res
+        match fin with
+        | some (some why, cls) => IO.println s!"MISMATCH line {d.lineNo} cat=crypto op={op.headD "?"} :: {" ".intercalate op} => {" ".intercalate res} :: {why} :: ctx cls={cls} modelrv={r.rv}"
+        | some (none, cls) => IO.println s!"ok ref:{cls}"
+        | none => pure ()
+        let d := { d with mon := mon', mism := d.mism + (match fin with | some (some _, _) => 1 | _ => 0) }
         let d := { d with st := st', pairs := d.pairs + 1 }
         match compareResp r p.obs with
         | none => IO.println s!"ok {sig op r.rv}"; loop h d none
